@@ -315,7 +315,7 @@ fn child_main(args: &Args) -> ! {
     let mut ctx = ctx;
     if ctx.tier == vl_model::Tier::Thorough && !ctx.failed() {
         let seeds: Vec<Vec<u8>> = bases.iter().map(|b| b.as_bytes().to_vec()).collect();
-        if let Some(bytes) = vl_model::fuzz::campaign(&mut ctx, "c12_parse", 5_000_000, &seeds, 4096) {
+        if let Some(bytes) = vl_model::fuzz::campaign(&mut ctx, "c12_parse", 1_500_000, &seeds, 4096) {
             let text = String::from_utf8_lossy(&bytes).to_string();
             match check_total(&text) {
                 Err(f) => {
